@@ -112,6 +112,9 @@ func propC08(c *Ctx, r *Report) {
 	r.Clauses = append(r.Clauses, "pointer values through the load rule (E101): a lowerer function that lowers a sub-expression for reference, passes the handle through the load rule and makes the result a value operand of an IR expression (the vector of a swizzle, an operand of arithmetic) compares the result with what it passed in or asks whether the handle is a pointer - `(*p)` with p a pointer parameter stays a pointer")
 	c.runForRefValueUse(r, "forref.valueuse", "wgsl/internal/lower")
 	r.floor("forref.valueuse", 1)
+	r.Clauses = append(r.Clauses, "only scalars are splatted (E102): a lowerer function that wraps a handle it was given into ExprSplat has a positive test that the handle's type is a scalar (an assertion to ir.ScalarType) - \"not a vector\" lets a matrix through (`v *= m`)")
+	c.runSplatScalarOperand(r, "splat.scalaroperand", "wgsl/internal/lower")
+	r.floor("splat.scalaroperand", 2)
 	r.floor("lookup.functionScopeTables", 5)
 	r.Clauses = append(r.Clauses, "template list ends (E49): every expectation of the '>' that closes a template list goes through the one helper that also splits '>>', '>=' and '>>='")
 	c.runTemplateClose(r, "template.close", "wgsl/internal/parser")
